@@ -16,5 +16,11 @@ def plans(tier):
     ]
 
 
+def gauge_schedules(chk, sd, binp):
+    """all interleavings of two requests through the gauge protocol (increment / publish / decrement / publish)"""
+    import health_race
+    health_race.run(chk, sd, ["G"], {"C13"})
+
+
 def run(tier):
-    return pc.run_check("C13", tier, ("C13",), plans(tier), snap=True)
+    return pc.run_check("C13", tier, ("C13",), plans(tier), snap=True, extra=gauge_schedules)
